@@ -53,8 +53,9 @@ def enc_content(R, content):
     """((attr ...) (child ...)) with byte strings; the model carries it and never looks at it"""
     if not content:
         return [[], []]
+    top = [R.SYNC_CONTENTS[content][:2]] if content in R.SYNC_CONTENTS else R.CONTENTS[content]
     return [[], [[tag.encode(), [[k.encode(), v.encode()] for k, v in sorted(attrs.items())]]
-                 for tag, attrs in R.CONTENTS[content]]]
+                 for tag, attrs in top]]
 
 
 def enc_op(R, op):
@@ -449,6 +450,14 @@ def systematic_content(R):
         for c in R.RESULT_CONTENTS:
             r = ["dlv", 1, "result", "plain", c]
             hs.append([rq, r, r, ["dlv", 1, "error", "plain", "err-backoff-3600"]])
+        if rq[1] == "sync":
+            # a reply is a reply whatever its <sync> child says about chunks: the first answers the request, once
+            for c in sorted(R.SYNC_CONTENTS):
+                r = ["dlv", 1, "result", "sync", c]
+                hs.append([rq, r, r, ["dlv", 1, "result", "sync"]])
+                hs.append([rq, r, ["dlv", 1, "error", "plain", "err-backoff-3600"], r])
+                hs.append([rq, rq, ["dlv", 2, "result", "sync", c], ["dlv", 1, "result", "sync", c],
+                           ["dlv", 2, "result", "sync"], ["dlv", 1, "result", "sync"]])
         # "Error" / "ERROR" / "Result" / "errors" are no replies: the request stays outstanding, the real reply
         # (with a backoff) answers it, once
         for t in R.OTHER_TYPES:
